@@ -22,7 +22,7 @@ INFO = {
                    "coefficients of the requested grades; every registry operator X carries codegen_X and the MultiVector "
                    "methods/dunders forward to the operators of the documented table (so ~a is reversion, not conjugation). "
                    "The (anti)automorphism statements are consequences of a grade-wise sign (M2).",
-    "decided": ["C04.cells", "C04.involution-table", "C04.grade", "C04.registry-names"],
+    "decided": ["C04.cells", "C04.involution-table", "C04.grade", "C04.registry-names", "C02.call-pairing"],
     "not_decided": ["nothing beyond the builders shared with C02"],
     "assumptions": ["keys are unique within one operand", "M2: involution signs have period 4 in the grade"],
 }
@@ -174,6 +174,8 @@ def _check_python_bodied_method(ctx, repo, c, meth, op, order, entry):
     cases = [(keys, (1, 6)) for keys in operands]
     if len(order) == 2:
         cases += [((4, 1, 2), (1, 2, 4)), ((1, 2, 4), (1, 2, 4)), ((3, 0, 5), (5, 3, 0))]
+        # an operand that stores no blade (e0 * e0 in PGA, an empty grade selection), on either side: `nothing - b` is -b, not b
+        cases += [((), (1, 6)), ((1, 6), ()), ((), ())]
     for keys, ykeys in cases:
         alg = rep_algebra(d)
         alg.attrs.setdefault("wrapper", None)
@@ -183,7 +185,7 @@ def _check_python_bodied_method(ctx, repo, c, meth, op, order, entry):
                 if name in ("reverse", "involute", "conjugate", "neg") and len(ops) == 1 and coeffs(ops[0]) is not None:
                     res = _spec_unary(name, coeffs(ops[0]))
                     return mv_obj(alg, tuple(res), [PV(v, "sum") for v in res.values()])
-                if name in ("add", "sub", "gp", "op", "ip", "lc", "rc", "sp") and len(ops) == 2 and all(coeffs(o) is not None for o in ops):
+                if name in ("add", "sub", "gp", "op", "ip", "lc", "rc", "sp", "sw", "proj") and len(ops) == 2 and all(coeffs(o) is not None for o in ops):
                     res = getattr(spec, name)(coeffs(ops[0]), coeffs(ops[1]))
                     ks = tuple(sorted(res))
                     return mv_obj(alg, ks, [PV(res[k], "sum") for k in ks])
